@@ -1,4 +1,5 @@
 import TwistedProps.C51.Recovery
+import TwistedProps.C51.More
 /-!
 C51 — DirDBM survives a crash at any point.
 
@@ -12,7 +13,13 @@ encoding of a key; `finalState cuts S` = the directory after reopenings killed a
 recovery followed by one reopening that completes; `crashAt tr c p fs` (`Fs/Sim.lean`) = `c`
 primitives of the trace done, `p` bytes of an interrupted write.  `WF` = no name listed twice.
 The model follows the repaired `_encode` (the empty key is stored as `_`; before the fix it named
-the database directory itself — witness in `harness/corpus/C51`).
+the database directory itself — witness in `harness/corpus/C51`) and the repaired recovery (the directory
+part of its glob patterns is escaped: the name of the directory plays no role).
+
+Beyond the statement's set/replace/delete: a `__setitem__` whose write fails with an exception while the
+process lives on (`failed_set_*`, `history_with_failures_*`: a failed set is not a completed operation and
+leaves nothing behind that a later crash could promote), and the other mutating entry points, which are
+sets and deletes (`setdefault_*`, `update_*`, `clear_*`).
 -/
 namespace TwistedProps.C51
 open Twisted.Fs Twisted.Fs.DirDbm TwistedProps.C52 Twisted.Fs.B64
@@ -281,6 +288,294 @@ example :
     view (finalState [(0, 0), (0, 0)] (crashAt (opTrace fs0 (.set [107] [2, 3])) 1 1 fs0)) [107] = some [1] ∧
     view (finalState [(0, 0)] (crashAt (opTrace fs0 (.set [107] [2, 3])) 3 0 fs0)) [107] = some [2, 3] := by
   simp only [view, opTrace, setTrace, enc_k]
+  decide
+
+/-! ### a `__setitem__` whose write fails with an exception (the process lives on) -/
+
+/-- **a failing set, killed anywhere inside it (its handler included) or not at all**: after the reopening
+    that completes (nested recovery crashes `cuts`), every key reads what it read before the failing set —
+    the key of the failing set too (never a partial value) — and only key files are in the directory. -/
+theorem failed_set_crash_consistent (fs0 : Fs) (hwf : WF fs0) (hcl : Clean fs0) (k v : Bytes) (n c p : Nat)
+    (cuts : List (Nat × Nat)) :
+    let F := finalState cuts (crashAt (setFailTrace fs0 k v n) c p fs0)
+    (∀ key, view F key = view fs0 key) ∧ Clean F ∧ WF F := by
+  intro F
+  have h := set_fail_final fs0 hwf hcl k v n c p cuts
+  exact ⟨fun key => h _, fun m hm => hcl m (by rw [← h m]; exact hm),
+    WF_finalState (WF_crashAt hwf _ _ _) cuts⟩
+
+/-- **a failing set that ran to its end** (the caller got the exception, the process goes on): the database is
+    what it was — no stray file is left behind for a later crash to promote. -/
+theorem failed_set_complete (fs0 : Fs) (hwf : WF fs0) (hcl : Clean fs0) (k v : Bytes) (n : Nat) :
+    (∀ key, view (run (setFailTrace fs0 k v n) fs0) key = view fs0 key) ∧
+    Clean (run (setFailTrace fs0 k v n) fs0) ∧ WF (run (setFailTrace fs0 k v n) fs0) := by
+  obtain ⟨h1, h2, h3⟩ := set_fail_restores fs0 hwf hcl k v n
+  exact ⟨fun key => h1 _, h3, h2⟩
+
+/-- a step of a history inside one process: an operation that completed, or a set whose write failed after
+    `n` bytes and whose handler ran -/
+inductive Step where
+  | done (op : Op)
+  | failed (k v : Bytes) (n : Nat)
+
+def stepTrace (fs : Fs) : Step → List Prim
+  | .done op => opTrace fs op
+  | .failed k v n => setFailTrace fs k v n
+
+/-- dictionary semantics: a failed set is not a completed operation -/
+def applyStep (d : Bytes → Option Bytes) : Step → Bytes → Option Bytes
+  | .done op => applyOp d op
+  | .failed _ _ _ => d
+
+def runSteps (fs : Fs) (steps : List Step) : Fs := steps.foldl (fun fs s => run (stepTrace fs s) fs) fs
+
+theorem runSteps_spec (fs0 : Fs) (hwf : WF fs0) (hcl : Clean fs0) (steps : List Step) :
+    (∀ key, view (runSteps fs0 steps) key = steps.foldl applyStep (view fs0) key) ∧
+    Clean (runSteps fs0 steps) ∧ WF (runSteps fs0 steps) := by
+  induction steps generalizing fs0 with
+  | nil => exact ⟨fun _ => rfl, hcl, hwf⟩
+  | cons s rest ih =>
+    have hs : (∀ key, view (run (stepTrace fs0 s) fs0) key = applyStep (view fs0) s key) ∧
+        Clean (run (stepTrace fs0 s) fs0) ∧ WF (run (stepTrace fs0 s) fs0) := by
+      cases s with
+      | done op => exact op_complete fs0 hwf hcl op
+      | failed k v n => exact failed_set_complete fs0 hwf hcl k v n
+    obtain ⟨h1, h2, h3⟩ := hs
+    obtain ⟨g1, g2, g3⟩ := ih (run (stepTrace fs0 s) fs0) h3 h2
+    refine ⟨?_, g2, g3⟩
+    intro key
+    show view (runSteps (run (stepTrace fs0 s) fs0) rest) key = List.foldl applyStep (applyStep (view fs0) s) rest key
+    rw [g1 key]
+    have : view (run (stepTrace fs0 s) fs0) = applyStep (view fs0) s := funext h1
+    rw [this]
+
+/-- **C51 with failing writes in the history.**  `history_crash_consistent` where the steps before the crash
+    are completed operations *and sets whose write failed with an exception* (in any order): the interrupted
+    step may be an operation (old or new value for its key) … -/
+theorem history_with_failures_crash_consistent (fs0 : Fs) (hwf : WF fs0) (hcl : Clean fs0) (steps : List Step)
+    (op : Op) (c p : Nat) (cuts : List (Nat × Nat)) :
+    let fsn := runSteps fs0 steps
+    let F := finalState cuts (crashAt (opTrace fsn op) c p fsn)
+    let last := steps.foldl applyStep (view fs0)
+    (∀ key, key ≠ keyOf op → view F key = last key) ∧
+    (view F (keyOf op) = last (keyOf op) ∨ view F (keyOf op) = newVal op) ∧
+    Clean F ∧ WF F := by
+  intro fsn F last
+  obtain ⟨h1, h2, h3⟩ := runSteps_spec fs0 hwf hcl steps
+  obtain ⟨g1, g2, g3, g4⟩ := crash_consistent fsn h3 h2 op c p cuts
+  refine ⟨fun key hk => ?_, ?_, g3, g4⟩
+  · show view F key = List.foldl applyStep (view fs0) steps key
+    rw [← h1 key]; exact g1 key hk
+  · show view F (keyOf op) = List.foldl applyStep (view fs0) steps (keyOf op) ∨ _
+    rw [← h1 (keyOf op)]; exact g2
+
+/-- … or a failing set killed inside itself or its handler: every key has the value of its last completed
+    operation -/
+theorem history_with_failures_failing_set_killed (fs0 : Fs) (hwf : WF fs0) (hcl : Clean fs0) (steps : List Step)
+    (k v : Bytes) (n c p : Nat) (cuts : List (Nat × Nat)) :
+    let fsn := runSteps fs0 steps
+    let F := finalState cuts (crashAt (setFailTrace fsn k v n) c p fsn)
+    (∀ key, view F key = steps.foldl applyStep (view fs0) key) ∧ Clean F ∧ WF F := by
+  intro fsn F
+  obtain ⟨h1, h2, h3⟩ := runSteps_spec fs0 hwf hcl steps
+  obtain ⟨g1, g2, g3⟩ := failed_set_crash_consistent fsn h3 h2 k v n c p cuts
+  exact ⟨fun key => by rw [← h1 key]; exact g1 key, g2, g3⟩
+
+/-! ### `setdefault`, `update`, `clear` are sets and deletes -/
+
+/-- `setdefault(k, v)` performs no primitive when the key is present and is `db[k] = v` otherwise -/
+theorem setdefault_is_set (fs : Fs) (k v : Bytes) :
+    ((view fs k).isSome = true ∧ setdefaultTrace fs k v = []) ∨
+    (view fs k = none ∧ setdefaultTrace fs k v = opTrace fs (.set k v)) := by
+  cases h : get fs (encodeKey k) with
+  | none => right; simp [view, setdefaultTrace, exists_, h, opTrace]
+  | some x => left; simp [view, setdefaultTrace, exists_, h]
+
+/-- **`setdefault` killed at any point**: the key keeps its value, or (if it was absent) has the default;
+    every other key is untouched; only key files remain -/
+theorem setdefault_crash_consistent (fs0 : Fs) (hwf : WF fs0) (hcl : Clean fs0) (k v : Bytes) (c p : Nat)
+    (cuts : List (Nat × Nat)) :
+    let F := finalState cuts (crashAt (setdefaultTrace fs0 k v) c p fs0)
+    (∀ key, key ≠ k → view F key = view fs0 key) ∧
+    (view F k = view fs0 k ∨ (view fs0 k = none ∧ view F k = some v)) ∧ Clean F ∧ WF F := by
+  intro F
+  rcases setdefault_is_set fs0 k v with ⟨_, ht⟩ | ⟨hn, ht⟩
+  · have hF : F = fs0 := by
+      show finalState cuts (crashAt (setdefaultTrace fs0 k v) c p fs0) = fs0
+      rw [ht, crashAt_nil, final_clean hcl]
+    rw [hF]
+    exact ⟨fun _ _ => rfl, Or.inl rfl, hcl, hwf⟩
+  · have hF : F = finalState cuts (crashAt (opTrace fs0 (.set k v)) c p fs0) := by
+      show finalState cuts (crashAt (setdefaultTrace fs0 k v) c p fs0) = _
+      rw [ht]
+    obtain ⟨g1, g2, g3, g4⟩ := crash_consistent fs0 hwf hcl (.set k v) c p cuts
+    rw [hF]
+    refine ⟨g1, ?_, g3, g4⟩
+    rcases g2 with g | g
+    · exact Or.inl g
+    · exact Or.inr ⟨hn, g⟩
+
+/-- `update(d)` run to its end is the history of its sets -/
+theorem update_is_sets (fs : Fs) (kvs : List (Bytes × Bytes)) :
+    run (updateTrace fs kvs) fs = runOps fs (kvs.map fun kv => Op.set kv.1 kv.2) := by
+  induction kvs generalizing fs with
+  | nil => rfl
+  | cons kv rest ih =>
+    obtain ⟨k, v⟩ := kv
+    show run (setTrace fs k v ++ updateTrace (run (setTrace fs k v) fs) rest) fs = _
+    rw [run_append, ih]
+    rfl
+
+theorem crashAt_append (a b : List Prim) (c p : Nat) (fs : Fs) :
+    crashAt (a ++ b) c p fs = if c < a.length then crashAt a c p fs else crashAt b (c - a.length) p (run a fs) := by
+  by_cases h : c < a.length
+  · simp only [h, if_true, crashAt]
+    have h1 : (a ++ b).take c = a.take c := by
+      rw [List.take_append_of_le_length (Nat.le_of_lt h)]
+    have h2 : (a ++ b).drop c = a.drop c ++ b := by
+      rw [List.drop_append_of_le_length (Nat.le_of_lt h)]
+    rw [h1, h2]
+    cases hd : a.drop c with
+    | nil => exact absurd (List.drop_eq_nil_iff.mp hd) (by omega)
+    | cons x xs => rw [List.cons_append]; cases x <;> rfl
+  · simp only [h, if_false, crashAt]
+    have hle : a.length ≤ c := Nat.le_of_not_lt h
+    have h1 : (a ++ b).take c = a ++ b.take (c - a.length) := by
+      rw [List.take_append, List.take_of_length_le hle]
+    have h2 : (a ++ b).drop c = b.drop (c - a.length) := by
+      rw [List.drop_append, List.drop_of_length_le hle, List.nil_append]
+    rw [h1, h2, run_append]
+
+/-- **`update` killed at any point** is a history of completed sets followed by one set killed at some point
+    (or nothing killed at all): `history_crash_consistent` applies to it -/
+theorem update_cut_is_set_cut (fs : Fs) (kvs : List (Bytes × Bytes)) (c p : Nat) :
+    crashAt (updateTrace fs kvs) c p fs = run (updateTrace fs kvs) fs ∨
+    ∃ done k v rest c', kvs = done ++ (k, v) :: rest ∧
+      crashAt (updateTrace fs kvs) c p fs =
+        crashAt (opTrace (runOps fs (done.map fun kv => Op.set kv.1 kv.2)) (.set k v)) c' p
+          (runOps fs (done.map fun kv => Op.set kv.1 kv.2)) := by
+  induction kvs generalizing fs c with
+  | nil => left; simp [updateTrace, crashAt_nil]
+  | cons kv rest ih =>
+    obtain ⟨k, v⟩ := kv
+    have hcut : crashAt (updateTrace fs ((k, v) :: rest)) c p fs =
+        if c < (setTrace fs k v).length then crashAt (setTrace fs k v) c p fs
+        else crashAt (updateTrace (run (setTrace fs k v) fs) rest) (c - (setTrace fs k v).length) p
+          (run (setTrace fs k v) fs) := by
+      show crashAt (setTrace fs k v ++ updateTrace (run (setTrace fs k v) fs) rest) c p fs = _
+      exact crashAt_append _ _ _ _ _
+    have hrun : run (updateTrace fs ((k, v) :: rest)) fs =
+        run (updateTrace (run (setTrace fs k v) fs) rest) (run (setTrace fs k v) fs) := by
+      show run (setTrace fs k v ++ updateTrace (run (setTrace fs k v) fs) rest) fs = _
+      rw [run_append]
+    rw [hcut, hrun]
+    by_cases h : c < (setTrace fs k v).length
+    · right
+      exact ⟨[], k, v, rest, c, rfl, by simp [h, runOps, opTrace]⟩
+    · simp only [h, if_false]
+      rcases ih (run (setTrace fs k v) fs) (c - (setTrace fs k v).length) with h1 | ⟨done, k', v', rest', c', he, h1⟩
+      · left; exact h1
+      · right
+        refine ⟨(k, v) :: done, k', v', rest', c', by rw [he]; rfl, ?_⟩
+        rw [h1]
+        rfl
+
+theorem mem_insertName (n x : Name) (l : List Name) : x ∈ insertName n l ↔ x = n ∨ x ∈ l := by
+  induction l with
+  | nil => simp [insertName]
+  | cons m rest ih =>
+    simp only [insertName]
+    split
+    · simp
+    · simp only [List.mem_cons, ih]
+      constructor
+      · rintro (h | h | h)
+        · exact Or.inr (Or.inl h)
+        · exact Or.inl h
+        · exact Or.inr (Or.inr h)
+      · rintro (h | h | h)
+        · exact Or.inr (Or.inl h)
+        · exact Or.inl h
+        · exact Or.inr (Or.inr h)
+
+theorem mem_sortNames (x : Name) (l : List Name) : x ∈ sortNames l ↔ x ∈ l := by
+  induction l with
+  | nil => simp [sortNames]
+  | cons m rest ih => simp [sortNames, mem_insertName, ih]
+
+theorem get_run_removes (ns : List Name) (fs : Fs) (m : Name) :
+    get (run (ns.map Prim.remove) fs) m = if m ∈ ns then none else get fs m := by
+  induction ns generalizing fs with
+  | nil => simp
+  | cons n rest ih =>
+    simp only [List.map_cons, run_cons, ih, get_apply_remove, List.mem_cons]
+    by_cases h1 : m ∈ rest <;> by_cases h2 : m = n <;> simp [h1, h2]
+
+theorem crashAt_removes (ns : List Name) (c p : Nat) (fs : Fs) :
+    crashAt (ns.map Prim.remove) c p fs = run ((ns.take c).map Prim.remove) fs := by
+  simp only [crashAt, ← List.map_take, ← List.map_drop]
+  cases ns.drop c with
+  | nil => rfl
+  | cons x xs => rfl
+
+/-- **`clear()` killed at any point** (it is one `__delitem__` per entry): every key keeps its value or is
+    gone, nothing else appears; run to its end, every key is gone -/
+theorem clear_crash_consistent (fs0 : Fs) (hwf : WF fs0) (hcl : Clean fs0) (c p : Nat) (cuts : List (Nat × Nat)) :
+    let F := finalState cuts (crashAt (clearTrace fs0) c p fs0)
+    (∀ key, view F key = view fs0 key ∨ view F key = none) ∧ Clean F ∧ WF F := by
+  intro F
+  have hg : ∀ m, get (crashAt (clearTrace fs0) c p fs0) m = get fs0 m ∨ get (crashAt (clearTrace fs0) c p fs0) m = none := by
+    intro m
+    rw [clearTrace, crashAt_removes, get_run_removes]
+    by_cases h : m ∈ (sortNames (names fs0)).take c <;> simp [h]
+  have hc : Clean (crashAt (clearTrace fs0) c p fs0) := fun m hm => by
+    rcases hg m with h | h
+    · exact hcl m (by rw [← h]; exact hm)
+    · rw [h] at hm; simp at hm
+  have hF : F = crashAt (clearTrace fs0) c p fs0 := final_clean hc cuts
+  rw [hF]
+  exact ⟨fun key => hg _, hc, WF_crashAt hwf _ _ _⟩
+
+theorem clear_complete (fs0 : Fs) (key : Bytes) : view (run (clearTrace fs0) fs0) key = none := by
+  show get (run (clearTrace fs0) fs0) (encodeKey key) = none
+  rw [clearTrace, get_run_removes]
+  by_cases h : encodeKey key ∈ sortNames (names fs0)
+  · simp [h]
+  · simp only [h, if_false]
+    rw [mem_sortNames, mem_names_iff] at h
+    cases hh : get fs0 (encodeKey key) with
+    | none => rfl
+    | some x => simp [hh] at h
+
+/-! ### non-vacuity of the theorems above -/
+
+/-- `db = {k: 1}`; `db[k] = 23` whose write raises after 1 byte: killed after the partial write and before the
+    handler's `remove` — the reopened database has the old value and only the key file; run to its end — the same -/
+example :
+    let fs0 : Fs := [([97, 119, 61, 61, 95], [1])]
+    view (finalState [(0, 0)] (crashAt (setFailTrace fs0 [107] [2, 3] 1) 2 0 fs0)) [107] = some [1] ∧
+    names (finalState [(0, 0)] (crashAt (setFailTrace fs0 [107] [2, 3] 1) 2 0 fs0)) = [[97, 119, 61, 61, 95]] ∧
+    get (crashAt (setFailTrace fs0 [107] [2, 3] 1) 2 0 fs0) [97, 119, 61, 61, 95, 46, 114, 112, 108] = some [2] ∧
+    view (run (setFailTrace fs0 [107] [2, 3] 1) fs0) [107] = some [1] := by
+  simp only [view, setFailTrace, tmpName, enc_k]
+  decide
+
+/-- `setdefault` on a present key does nothing; on an absent key it is a set (killed before the rename: absent) -/
+example :
+    let fs0 : Fs := [([97, 119, 61, 61, 95], [1])]
+    setdefaultTrace fs0 [107] [5] = [] ∧
+    view (run (setdefaultTrace [] [107] [5]) []) [107] = some [5] ∧
+    view (finalState [] (crashAt (setdefaultTrace [] [107] [5]) 2 0 [])) [107] = none := by
+  simp only [view, setdefaultTrace, setTrace, enc_k]
+  decide
+
+/-- `update({k: 1})` then `update` … here one `update` with the key twice: killed inside the second set after
+    `remove(old)` — the new value; before it — the old one; `clear()` removes the entry -/
+example :
+    view (finalState [] (crashAt (updateTrace [] [([107], [1]), ([107], [2])]) 6 0 [])) [107] = some [2] ∧
+    view (finalState [] (crashAt (updateTrace [] [([107], [1]), ([107], [2])]) 5 0 [])) [107] = some [1] ∧
+    view (run (clearTrace [([97, 119, 61, 61, 95], [1])]) [([97, 119, 61, 61, 95], [1])]) [107] = none := by
+  simp only [view, updateTrace, setTrace, clearTrace, enc_k]
   decide
 
 end TwistedProps.C51
